@@ -427,12 +427,310 @@ def run_case(case, observe=None):
     return None
 
 
+# ------------------------------------------------------------------------------------------------------------------
+# SECS-I variant (secsgem/secsi/protocol.py is anchored by the property as well): the same routing invariants on the
+# real SecsIProtocol pair of vf.secsirig (SECS-I over TCP, simulated sockets, line actor that re-chunks the blocks).
+# Only one side transmits at a time (the line protocol has no contention handling beyond ENQ/ENQ, C17's precondition):
+# phase 1 - K application threads of side A call send_and_waitfor_response concurrently (their blocks interleave in
+# A's send queue, multi-block requests included, B only records); phase 2 - B's application answers in a generated
+# order (send_response, in groups of concurrent calls), leaves requests unanswered, answers after T3, and interleaves
+# primaries of its own: without W-bit, or with W-bit and the system bytes of a request that is still open at A.
+
+S_T3 = 5.0
+S_HOT = HOT + ("_process_send_queue", "_process_received_data", "_add_message_block", "_on_connection_message_received", "queue_block")
+S_SIZES = (0, 1, 10, 243, 244, 245, 300, 489)
+
+
+@st.composite
+def secsi_strategy(draw):
+    nreq = draw(st.integers(1, 4))
+    reqs = [{"n": draw(st.sampled_from(S_SIZES)), "act": draw(st.sampled_from(["reply", "reply", "reply", "reply", "never", "late"]))} for _ in range(nreq)]
+    # B's script: a permutation of the replies, cut into groups (members of a group are sent by concurrent threads of B),
+    # with primaries of B's own in between
+    order = draw(st.permutations([j for j, r in enumerate(reqs) if r["act"] in ("reply", "late")]))
+    items = [{"k": "reply", "j": j, "n": draw(st.sampled_from(S_SIZES))} for j in order if reqs[j]["act"] == "reply"]
+    n_un = draw(st.integers(0, 3))
+    for u in range(n_un):
+        kind = draw(st.sampled_from(["prim", "prim", "collide", "foreign-secondary"]))
+        items.insert(draw(st.integers(0, len(items))), {"k": kind, "u": u, "n": draw(st.sampled_from(S_SIZES[:6]))})
+    groups = []
+    while items:
+        g = draw(st.sampled_from([1, 1, 1, 2, 3]))
+        groups.append(items[:g])
+        items = items[g:]
+    late = [{"k": "reply", "j": j, "n": 1} for j in order if reqs[j]["act"] == "late"]
+    sched = draw(
+        st.one_of(
+            st.just({"seed": 0}),
+            st.builds(lambda s, p, pp: {"seed": s, "switch": p, "pprob": pp, "hot": list(S_HOT)}, st.integers(1, 2**31), st.sampled_from([0.1, 0.5, 0.9]), st.sampled_from([0.0, 0.05, 0.2])),
+        )
+    )
+    sched["syscnt"] = draw(st.sampled_from([1000, 2**32 - 1, 2**32 - 2, 2**32 - 3, 0, 7]))
+    return {
+        "secsi": {"reqs": reqs, "groups": groups, "late": late, "every": draw(st.sampled_from([0, 0, 1, 16, 100])), "req_every": draw(st.sampled_from([0, 0, 1, 50])),
+                  "handler_sleep": draw(st.sampled_from([0.0, 0.001, 0.3]))},
+        "a_host": draw(st.booleans()),
+        "dev": draw(st.integers(0, 32767)),
+        "sched": sched,
+    }
+
+
+def _sbody(tag, n):
+    return bytes([tag]) + bytes(((tag * 31 + i) & 0xFF) for i in range(n))
+
+
+def run_secsi(case, observe=None):
+    import secsgem.secs
+    import secsgem.secsi.header
+    import secsgem.secsi.message
+
+    from vf import secsirig
+    from vf.detsim.patch import simulation
+
+    sc = case["secsi"]
+    sched = case.get("sched", {})
+    with simulation(sched_seed=sched.get("seed", 0), switch_prob=sched.get("switch", 0.0), preempt_prob=sched.get("pprob", 0.0), hot=sched.get("hot", ()),
+                    system_counter=sched.get("syscnt", 1000)) as w:
+        sim = w.sim
+        line = secsirig.Line(w, a_is_host=bool(case["a_host"]), dev_a=case["dev"], dev_b=case["dev"])
+        line.a.settings.timeouts.t3 = S_T3
+        line.b.settings.timeouts.t3 = S_T3
+        if not line.connect():
+            return Failure("secsi:setup-failed", case, sim.blocked_report(), "both endpoints connected to the line")
+        tshim = __import__("secsgem.common.tcp_connection", fromlist=["time"]).time
+        thr_mod = __import__("secsgem.common.protocol_dispatcher", fromlist=["threading"]).threading
+        A, B = line.a, line.b
+        log = []
+
+        def on_a(data):
+            sysb = data["message"].header.system
+            log.append(("enter", sysb))
+            if sc.get("handler_sleep"):
+                tshim.sleep(sc["handler_sleep"])
+            log.append(("exit", sysb))
+
+        A.p.events.message_received += on_a
+        # ---- phase 1: concurrent requesters on A
+        results = {}
+        threads = []
+
+        def mk(j, spec):
+            def run():
+                f = secsgem.secs.functions.SecsS02F25(_sbody(j, spec["n"]))
+                ts = sim.now
+                r = A.p.send_and_waitfor_response(f)
+                results[j] = {"t0": ts, "t1": sim.now, "sys": None if r is None else r.header.system, "sf": None if r is None else (r.header.stream, r.header.function),
+                              "body": None if r is None else bytes(r.data)}
+            return run
+
+        for j, spec in enumerate(sc["reqs"]):
+            threads.append(sim.spawn(mk(j, spec), f"requester-{j}"))
+        info = line.transfer(None, "A", {"every": sc.get("req_every", 0)})
+        if info["status"] != "done":
+            return Failure(f"secsi:request-phase-{info['status']}", case, {"blocked": info.get("blocked"), "error": info.get("error")}, "all requests carried to B")
+        sim.settle()
+        # which system bytes did the library give to which request (body names the caller)
+        wire = {}
+        for m in B.received:
+            if (m["s"], m["f"]) == (2, 25):
+                try:
+                    val = e5.decode_all(bytes.fromhex(m["body"]))
+                    j = val[1][0]
+                except Exception:
+                    return Failure("secsi:request-garbled", case, m["body"][:80], "S2F25 body as sent")
+                if j >= len(sc["reqs"]) or val != ("B", _sbody(j, sc["reqs"][j]["n"])):
+                    return Failure("secsi:request-garbled", case, m["body"][:80], "S2F25 body as sent")
+                if j in wire:
+                    return Failure("secsi:request-delivered-twice", case, f"request {j}", "once")
+                wire[j] = m["sys"]
+        died = [(t.name, repr(t.error)) for t in threads if t.error is not None]
+        if died:
+            return Failure(f"secsi:caller-raises:{type([t.error for t in threads if t.error is not None][0]).__name__}", case, died, "reply or None")
+        missing = [j for j in range(len(sc["reqs"])) if j not in wire and j not in results]
+        if missing:
+            return Failure("secsi:request-not-delivered", case, f"requests {missing} neither arrived at the peer nor returned", "every successfully sent request arrives")
+        if len(set(wire.values())) != len(wire):
+            return Failure("duplicate-system-bytes", case, {j: hex(s) for j, s in wire.items()}, "pairwise distinct among outstanding requests")
+        # ---- phase 2: B's application
+        usys = 0x66000
+        sent_groups = []  # per group: list of (kind, system) that reported success
+        reply_sent = {}
+        collided = 0
+
+        def build(item):
+            nonlocal usys, collided
+            if item["k"] == "reply":
+                j = item["j"]
+                if j not in wire:
+                    return None
+                fn_obj = secsgem.secs.functions.SecsS02F26(_sbody(100 + j, item["n"]))
+                return ("reply", wire[j], lambda: B.p.send_response(fn_obj, wire[j]), j)
+            if item["k"] == "collide":
+                open_now = [j for j in sorted(wire) if j not in results and j not in reply_sent]
+                if open_now:
+                    collided += 1
+                    sysb, w_ = wire[open_now[0]], True
+                else:
+                    usys += 1
+                    sysb, w_ = usys, True
+            elif item["k"] == "foreign-secondary":
+                usys += 1
+                sysb, w_ = usys, False
+            else:
+                usys += 1
+                sysb, w_ = usys, False
+            sf = (2, 26) if item["k"] == "foreign-secondary" else ((2, 25) if item["n"] else (1, 1))
+            body = e5.encode(("B", _sbody(200 + item["u"], item["n"]))) if sf[0] == 2 else b""
+            hdr = secsgem.secsi.header.SecsIHeader(sysb, case["dev"], sf[0], sf[1], require_response=w_ and sf != (2, 26), from_equipment=bool(case["a_host"]))
+            msg = secsgem.secsi.message.SecsIMessage(hdr, body)
+            return ("unsol", sysb, lambda: B.p.send_message(msg), (sf, body))
+
+        def run_group(group):
+            built = [b for b in (build(i) for i in group) if b is not None]
+            if not built:
+                return None
+            res = [None] * len(built)
+
+            def fn():
+                ths = []
+                for i, b in enumerate(built):
+                    def run(i=i, b=b):
+                        res[i] = b[2]()
+                    t = thr_mod.Thread(target=run, name=f"b-app-{i}")
+                    t.start()
+                    ths.append(t)
+                for t in ths:
+                    t.join()
+                return list(res)
+
+            inf = line.transfer(fn, "B", {"every": sc.get("every", 0)})
+            if inf["status"] != "done":
+                return Failure(f"secsi:reply-phase-{inf['status']}", case, {"blocked": inf.get("blocked"), "error": inf.get("error")}, "B's send calls return")
+            ok = []
+            for b, r in zip(built, res):
+                if r is True:
+                    ok.append(b)
+                    if b[0] == "reply":
+                        reply_sent[b[3]] = sim.now
+            sent_groups.append(ok)
+            sim.settle()
+            return None
+
+        for group in sc["groups"]:
+            # a primary that reuses the system bytes of an open request travels alone (two concurrent messages of one sender
+            # with the same system bytes would be ambiguous for SECS-I reassembly, which is nobody's defect)
+            parts = [[i] for i in group] if any(i["k"] == "collide" for i in group) else [group]
+            for part in parts:
+                f = run_group(part)
+                if f is not None:
+                    return f
+        t_phase2 = sim.now
+        # let T3 expire for the unanswered ones, then the late replies
+        sim.advance(S_T3 + 1.0)
+        line.transfer(None, "B", {})
+        for item in sc["late"]:
+            f = run_group([item])
+            if f is not None:
+                return f
+        sim.advance(0.5 + (sc.get("handler_sleep", 0) + 0.01) * 8)
+        line.transfer(None, "B", {})
+        sim.settle()
+        # ---- invariants
+        died = [(t.name, repr(t.error)) for t in threads if t.error is not None]
+        if died:
+            return Failure(f"secsi:caller-raises:{type([t.error for t in threads if t.error is not None][0]).__name__}", case, died, "reply or None")
+        hung = [j for j in range(len(sc["reqs"])) if j not in results]
+        if hung:
+            return Failure("secsi:caller-never-returns", case, f"calls {hung} still blocked: {sim.blocked_report()}", "reply or timeout (None) for every call")
+        late_js = {i["j"] for i in sc["late"]}
+        for j, r in sorted(results.items()):
+            spec = sc["reqs"][j]
+            if r["sys"] is not None:
+                if j not in wire or r["sys"] != wire[j]:
+                    return Failure("foreign-reply-returned", case, f"call {j} got system {r['sys']:#x}, its request used {hex(wire[j]) if j in wire else None}", "own reply or None")
+                if r["sf"] != (2, 26):
+                    return Failure("foreign-reply-returned", case, f"call {j} got S{r['sf'][0]}F{r['sf'][1]}", "S2F26")
+                exp = [i for g in sc["groups"] for i in g if i["k"] == "reply" and i["j"] == j]
+                if exp and r["body"] != e5.encode(("B", _sbody(100 + j, exp[0]["n"]))):
+                    return Failure("secsi:reply-body-differs", case, r["body"][:40].hex(), "the body B sent for this request")
+            if spec["act"] == "reply" and j in reply_sent and r["sys"] is None and reply_sent[j] - r["t0"] <= S_T3 - 0.5:
+                return Failure("reply-lost", case, f"call {j} returned None although its reply was sent {reply_sent[j] - r['t0']:.2f}s after the request", "the reply")
+            if spec["act"] == "never" and r["sys"] is not None:
+                return Failure("reply-invented", case, f"call {j} returned a message although the peer never answered", "None")
+            if spec["act"] == "late" and j in late_js and r["sys"] is not None:
+                return Failure("reply-invented", case, f"call {j} returned a message although the peer answered only after T3", "None")
+            if r["t1"] - r["t0"] > S_T3 + 5 + (t_phase2 - r["t0"]) + 1e-6:
+                return Failure("timeout-too-late", case, f"call {j} took {r['t1'] - r['t0']:.1f}s", f"<= T3 ({S_T3}s) + send time")
+        # (iii) B's own messages: each exactly once, groups in order
+        un_groups = [[b for b in g if b[0] == "unsol"] for g in sent_groups]
+        sent_un = [b[1] for g in un_groups for b in g]
+        got = [m for m in A.received if not ((m["s"], m["f"]) == (2, 26) and m["sys"] in set(wire.values()))]
+        got_sys = [m["sys"] for m in got]
+        if sorted(got_sys) != sorted(sent_un):
+            kind = "lost" if len(got_sys) < len(sent_un) else "duplicated-or-invented"
+            return Failure(f"unsolicited-{kind}", case, [hex(x) for x in got_sys], [hex(x) for x in sent_un])
+        pos = 0
+        for g in un_groups:
+            seg = got[pos:pos + len(g)]
+            pos += len(g)
+            if sorted(m["sys"] for m in seg) != sorted(b[1] for b in g):
+                return Failure("unsolicited-reordered", case, [hex(x) for x in got_sys], [[hex(b[1]) for b in g] for g in un_groups])
+            for m in seg:
+                exp = [b for b in g if b[1] == m["sys"]]
+                if exp and (((m["s"], m["f"]) != exp[0][3][0]) or bytes.fromhex(m["body"]) != exp[0][3][1]):
+                    return Failure("secsi:unsolicited-content-differs", case, (m["s"], m["f"], m["body"][:40]), "as sent")
+        # late replies (after the caller timed out) may be handed to the application or dropped: not pinned
+        depth = 0
+        for ev, sysb in log:
+            depth += 1 if ev == "enter" else -1
+            if depth > 1:
+                return Failure("handler-overlap", case, f"second handler entered for 0x{sysb:x} while another was running", "one at a time")
+        if observe is not None:
+            observe["collisions"] = collided
+            observe["preempt_hits"] = len(sim.preempt_hits)
+            observe["nreq"] = len(sc["reqs"])
+            observe["multi"] = sum(1 for r in sc["reqs"] if r["n"] > 243)
+            observe["late_or_never"] = sum(1 for r in sc["reqs"] if r["act"] != "reply")
+            observe["concurrent_b"] = sum(1 for g in sc["groups"] if len(g) > 1)
+            observe["replies_returned"] = sum(1 for r in results.values() if r["sys"] is not None)
+            observe["unsol_delivered"] = len(got_sys)
+            observe["virtual_s"] = round(sim.now, 2)
+    return None
+
+
 def plan(tier, seed):
     quick = tier == "quick"
-    return [("gen", {"shard": i, "n": 95 if quick else 1200}) for i in range(16)]
+    tasks = [("gen", {"shard": i, "n": 95 if quick else 1200}) for i in range(16)]
+    tasks += [("secsi", {"shard": i, "n": 40 if quick else 600}) for i in range(8)]
+    return tasks
 
 
 def run_task(name, kw, ctx):
+    if name == "secsi":
+
+        def sbody(case):
+            obs = {}
+            f = run_secsi(case, obs)
+            cls = ["secsi", f"secsi:requesters:{obs.get('nreq', 0)}"]
+            if obs.get("multi"):
+                cls.append("secsi:multi-block-request")
+            if obs.get("late_or_never"):
+                cls.append("secsi:late-or-missing-reply")
+            if obs.get("collisions"):
+                cls.append("secsi:peer-primary-with-system-bytes-of-an-open-request")
+            if obs.get("concurrent_b"):
+                cls.append("secsi:concurrent-repliers")
+            if obs.get("preempt_hits"):
+                cls.append("secsi:preemption-hit")
+            if case["sched"].get("syscnt", 0) >= 2**32 - 3:
+                cls.append("secsi:counter-wrap")
+            nt = obs.get("nreq", 0) >= 2 or obs.get("late_or_never", 0) > 0 or obs.get("collisions", 0) > 0
+            ctx.case(case, nt or f is not None, cls)
+            return f
+
+        ctx.hyp(secsi_strategy(), sbody, kw["n"], seed_offset=500 + kw["shard"])
+        return
+
     def body(case):
         obs = {}
         f = run_case(case, obs)
@@ -470,4 +768,6 @@ def run_task(name, kw, ctx):
 
 
 def replay(case, ctx):
+    if "secsi" in case:
+        return run_secsi(case)
     return run_case(case)
